@@ -393,6 +393,8 @@ def props_of(d):
     """Which properties a diagnostic is evidence against."""
     kind, who, ev = d.get('kind'), d.get('who'), d.get('event', {})
     e = ev.get('e')
+    if 'props' in d:           # trace specs other than TraceUrl name the properties themselves
+        return set(d['props'])
     ps = set()
     if who == 'spec':
         return {'SPEC'}
